@@ -68,7 +68,7 @@ def label_text_nodes(spelling):
 
 
 def build(rng, ndefs=None, nuses=None, skeleton=None):
-    opt = gen.Opt(leaf_kinds=['para', 'para', 'atx'], force_loose=True, refs=False, html=False, tables=False, max_blocks=14, empty_items=False,
+    opt = gen.Opt(leaf_kinds=['para', 'para', 'para', 'atx', 'setext'], force_loose=True, refs=False, html=False, tables=False, max_blocks=14, empty_items=False,
                   blank_start_items=False)
     g = gen.Gen(rng, opt)
     blocks = skeleton(g) if skeleton else g.blocks(0)
@@ -95,6 +95,14 @@ def build(rng, ndefs=None, nuses=None, skeleton=None):
                 d.title, d.title_md = 'dir %d\\' % i, 'dir %d\\\\' % i
             else:
                 d.title, d.title_md = '%s x\\' % close, '\\%s x\\\\' % close
+        elif rng.random() < 0.25:
+            # 6.3 + 6.1/6.2: destinations and titles whose spelling needs backslash escapes or character references
+            if rng.random() < 0.6:
+                d.title = gen.RICH_TITLES[rng.randrange(len(gen.RICH_TITLES))] + ' %d' % i
+            if rng.random() < 0.6:
+                d.dest, d.angle = gen.RICH_DESTS[rng.randrange(len(gen.RICH_DESTS))] + '%d' % i, rng.random() < 0.3
+            d.dest_md, d.title_md = gen.spell_tail(rng, d.dest, d.title, d.tq, d.angle, True)
+            d.spelled = True
         places = list(lists_of(blocks))
         L, path = rng.choice(places)
         pos = rng.randint(0, len(L))
@@ -110,7 +118,9 @@ def build(rng, ndefs=None, nuses=None, skeleton=None):
         L, path = rng.choice(list(lists_of(blocks)))
         L.insert(rng.randint(0, len(L)), node)
     # uses: appended to paragraphs anywhere
+    # uses sit in paragraphs and in headings (their inline content is parsed the same way, after the block phase)
     paras = [(nd, path) for L, path in lists_of(blocks) for nd in L if nd.kind == 'para']
+    paras = paras * 2 + [(nd, path + '>' + nd.kind) for L, path in lists_of(blocks) for nd in L if nd.kind in ('atx', 'setext') and nd.inl]
     uses = []
     nuses = nuses if nuses is not None else rng.randint(1, 6)
     for i in range(nuses):
@@ -119,7 +129,7 @@ def build(rng, ndefs=None, nuses=None, skeleton=None):
         spelling = rng.choice(fam)
         if rng.random() < 0.1:
             spelling = 'fake%d' % rng.randint(0, 1)       # never defined: the near-definitions above define nothing
-        if spelling in BREAKABLE and rng.random() < 0.3:
+        if spelling in BREAKABLE and rng.random() < 0.3 and p.kind != 'atx':
             spelling = BREAKABLE[spelling]
         form = rng.choice(('full', 'collapsed', 'shortcut'))
         image = rng.random() < 0.2
